@@ -347,3 +347,34 @@ def is_err_ret(x):
     """an event-graph return node carrying the failure variant: `return Err(..)`, `Err(..)?`, `x?` all look alike"""
     x = str(x)
     return x.startswith("RET(agg:Result::Err") or x.startswith("RET(call:FromResidual") or x.startswith("RET(agg:Option::None")
+
+
+def token_at_offset(fn, o):
+    """k when `o` is the command-line token k places after the scan position — `args[i + k]`, or the same token obtained
+    with `args.get(i + k)` (its Some payload, possibly handed on through Ok/`?`) — else None; 0 for `args[i]`"""
+    s = prim.renorm(prim.expand_single_def_vars(fn, o, depth=5)).strip()
+    for _ in range(4):
+        if s.k == "field" and str(s.a) == "0" and s.kids and s.kids[0].strip().k == "variant":
+            s = s.kids[0].strip()
+        if s.k == "variant" and str(s.a) in ("Some", "Ok", "Continue") and s.kids:
+            s = s.kids[0].strip()
+            continue
+        if s.k == "agg" and str(s.a).endswith(("Result::Ok", "Option::Some")) and len(s.kids) == 1:
+            s = s.kids[0].strip()
+            continue
+        break
+    idx = None
+    if s.k == "index" and len(s.kids) == 2 and any(x.k == "arg" and x.a.get("name") == "args" for x in s.kids[0].walk()):
+        idx = s.kids[1].strip()
+    elif s.k == "call" and s.a["name"] in ("index", "get", "get_unchecked") and len(s.kids) == 2 and any(x.k == "arg" and x.a.get("name") == "args" for x in s.kids[0].walk()):
+        idx = s.kids[1].strip()
+    if idx is None:
+        return None
+    core = idx.kids[0].strip() if idx.k == "field" and idx.kids else idx
+    if core.k == "var":
+        return 0
+    if core.k == "bin" and core.a in ("Add", "AddWithOverflow", "AddUnchecked"):
+        ks = [x.get("v") for x in core.consts() if isinstance(x.get("v"), int)]
+        if len(ks) == 1 and any(x.k == "var" for x in core.walk()):
+            return ks[0]
+    return None
